@@ -4,6 +4,7 @@ the extracted Coq model (bin/dynmodel), canonicalised so that the two answers ar
 A program is a list of operations (tuples, see OPS below). Node ids are small ints in programs; the
 implementation side maps them through an id family (ints, strings, tuples) and maps answers back.
 """
+import copy
 import os, sys, subprocess, json, random, itertools, time
 from fractions import Fraction
 
@@ -33,7 +34,49 @@ def dn():
         import dynetx
         assert os.path.abspath(dynetx.__file__).startswith(os.path.abspath(REPO)), dynetx.__file__
         _dn = dynetx
+        _install_handout_probe(dynetx)
     return _dn
+
+
+# Hand-out probe (harness side only; the library is not modified): the containers that the query methods below RETURN are
+# the caller's own -- "returns the list of ...", a caller may sort, pop or clear it.  Every list / dict / set such a method
+# hands out is remembered and, once the operation that asked for it has been answered (and its answer copied), EMPTIED.  If
+# the library kept a reference to a container it handed out (a cache returned without a copy), its later answers are wrong
+# and the oracles see it; if it did not, nothing changes.  Only the top-level container is emptied, never what it holds.
+HANDED_OUT = []
+HANDOUT_METHODS = ('temporal_snapshots_ids', 'interactions', 'in_interactions', 'out_interactions', 'neighbors', 'successors',
+                   'predecessors', 'nodes', 'degree', 'in_degree', 'out_degree', 'interactions_per_snapshots',
+                   'get_node_snapshots', 'node_presence', 'inter_event_time_distribution', 'inter_in_event_time_distribution',
+                   'inter_out_event_time_distribution')
+
+
+def _install_handout_probe(D):
+    import functools
+    for cls in (D.DynGraph, D.DynDiGraph):
+        for name in HANDOUT_METHODS:
+            f = cls.__dict__.get(name)
+            if f is None or not callable(f) or getattr(f, '_verif_probe', False):
+                continue
+
+            def mk(f):
+                @functools.wraps(f)
+                def w(*a, **k):
+                    r = f(*a, **k)
+                    if type(r) in (list, dict, set):
+                        HANDED_OUT.append(r)
+                    return r
+                w._verif_probe = True
+                return w
+            setattr(cls, name, mk(f))
+
+
+def scribble_handed_out():
+    while HANDED_OUT:
+        r = HANDED_OUT.pop()
+        try:
+            r.clear()
+        except Exception:
+            pass
 
 
 # ----------------------------------------------------------------------------------------------------------
@@ -142,6 +185,24 @@ class Ids:
 def attr_to(a):
     # a nested mutable value rides along so that deep-copy isolation can be observed
     return {} if a == 0 else {'a': a, 'nest': [a]}
+
+
+def gattr_to(a):
+    """graph-level attributes"""
+    if a == 0:
+        return {}
+    d = {'a': a, 'nest': [a]}
+    # attribute NAMES that coincide with names the library or networkx use for something else (constructor parameters,
+    # keys of the node-link format): legitimate JSON-native graph / node attributes all the same
+    if a % 10 == 5:
+        d['edge_removal'] = False
+    elif a % 10 == 6:
+        d['data'] = [[1, 2]]
+    elif a % 10 == 7:
+        d.update({'directed': 0, 'multigraph': True, 'nodes': [], 'links': [], 'graph': {}, 'name': ''})
+    elif a % 10 == 8:
+        d.update({'t': [[0, 1]], 'id': 3, 'source': 1, 'target': 2, 'time': 5, 'incoming_graph_data': None})
+    return d
 
 
 def attr_back(d):
@@ -620,10 +681,17 @@ class Impl:
         for op in prog:
             q = op[0] in self.QUERIES and len(op) > 1 and not isinstance(op[1], (list, tuple, dict))
             before = self._stamp(op[1]) if q else None
+            del HANDED_OUT[:]
             try:
                 res = self.step(op)
             except Exception as x:  # an exception the model cannot express
                 res = _exc_name(x)
+            if HANDED_OUT:
+                try:
+                    res = copy.deepcopy(res)
+                except Exception:
+                    pass
+                scribble_handed_out()
             if q and before is not None and self._stamp(op[1]) != before:
                 res = 'IMPURE-QUERY: %s changed the graph it was asked about' % (op[0],)
             out.append(res)
@@ -819,7 +887,7 @@ class Impl:
             G.graph['a'] = 777
             return None
         if k == 'gattr':
-            G.graph.update(attr_to(op[2]))
+            G.graph.update(gattr_to(op[2]))
             return None
         if k == 'streamchk':
             raw = list(G.stream_interactions())
@@ -1138,7 +1206,7 @@ def _io_methods():
             if k == 'nlg':
                 from dynetx.readwrite import json_graph
                 _, dst, dd = op
-                data = {'graph': attr_to(dd['graph']),
+                data = {'graph': gattr_to(dd['graph']),
                         'nodes': [dict(attr_to(a), id=I.to(n)) for n, a in dd['nodes']],
                         'links': [{'source': I.to(u), 'target': I.to(v), 'time': t} for u, v, t in dd['links']]}
                 if dd['directed'] is not None:
@@ -1292,6 +1360,53 @@ def big_span_check(D, kind, directed, L, T0):
                 have = sorted(tl(H, 1, 2) or tl(H, 2, 1))
                 if have != [(T0, T0 + L), (T0 + L + 5, T0 + L + 6)]:
                     return 'FAIL: to_directed(): timeline %r' % (have[:4],)
+            return 'OK'
+        if kind == 'span-file':
+            # a run of more than a million instants written as a snapshot file: one 3-field row per instant, read back whole
+            G = cls()
+            G.add_interaction(1, 2, t=T0, e=T0 + L + 1)                   # [T0, T0+L]
+            G.add_interaction(2, 3, t=T0 + 5, e=T0 + 9)                   # [T0+5, T0+8]
+            G.add_interaction(1, 2, t=T0 + L + 7, e=T0 + L + 10)          # [T0+L+7, T0+L+9]
+            G.add_interaction(3, 1, t=T0 + L + 8)
+            exp = {(1, 2): [(T0, T0 + L), (T0 + L + 7, T0 + L + 9)], (2, 3): [(T0 + 5, T0 + 8)], (3, 1): [(T0 + L + 8, T0 + L + 8)]}
+            path = os.path.join(VERIF, '.work', str(os.getpid()), 'longrun.txt')
+            os.makedirs(os.path.dirname(path), exist_ok=True)
+            try:
+                D.write_snapshots(G, path)
+                seen = {}
+                with open(path, 'rb') as fh:
+                    for ln in fh:
+                        f = ln.decode('utf-8').split()
+                        if len(f) != 3:
+                            return 'FAIL: snapshot file of a long run has a row with %d fields: %r' % (len(f), ln[:60])
+                        k = (int(f[0]), int(f[1]))
+                        if not directed and k not in exp:
+                            k = (k[1], k[0])
+                        c = seen.setdefault(k, [0, None, None, 0])
+                        t = int(f[2])
+                        c[0] += 1
+                        c[3] += t - T0
+                        c[1] = t if c[1] is None else min(c[1], t)
+                        c[2] = t if c[2] is None else max(c[2], t)
+                for k, runs in exp.items():
+                    n = sum(b - a + 1 for a, b in runs)
+                    sm = sum((a - T0 + b - T0) * (b - a + 1) // 2 for a, b in runs)
+                    got = seen.get(k, [0, None, None, 0])
+                    if (got[0], got[1], got[2], got[3]) != (n, runs[0][0], runs[-1][1], sm):
+                        return 'FAIL: snapshot file of a long run: pair %r has %d rows from %r to %r, expected %d rows from %d to %d' % (
+                            k, got[0], got[1], got[2], n, runs[0][0], runs[-1][1])
+                if set(seen) != set(exp):
+                    return 'FAIL: snapshot file of a long run lists the pairs %r' % (sorted(seen),)
+                H = D.read_snapshots(path, nodetype=int, timestamptype=int, directed=directed)
+                for (u, v), runs in exp.items():
+                    r = check_presence(H, u, v, runs, 'read back from the snapshot file')
+                    if r:
+                        return r
+            finally:
+                try:
+                    os.remove(path)
+                except OSError:
+                    pass
             return 'OK'
         return 'FAIL: unknown kind %r' % (kind,)
     except Exception as x:
